@@ -419,10 +419,145 @@ def merger_spec(draw):
     return {"comps": comps, "links": [list(l) for l in links], "order": list(order), "end": draw(st.integers(5, 25)), "excluded": [], "wscale": wscale}
 
 
+# ------------------------------------------------------------------ (d) finam's own consumer of pull-based sources
+_TT = None
+
+
+def _tt_classes():
+    global _TT  # pylint: disable=global-statement
+    if _TT:
+        return _TT
+    import finam as fm
+
+    class Daily(fm.TimeComponent):
+        def __init__(self, start, step_days):
+            super().__init__()
+            self._name, self._time, self.t0, self.step = "P", start, start, timedelta(days=step_days)
+
+        def _next_time(self):
+            return self.time + self.step
+
+        def _initialize(self):
+            self.outputs.add(name="o", time=self.time, grid=fm.NoGrid(), units="")
+            self.create_connector()
+
+        def _connect(self, start_time):
+            self.try_connect(start_time, push_data={"o": 0.0})
+
+        def _validate(self):
+            pass
+
+        def _update(self):
+            self._time = self.next_time
+            self.outputs["o"].push_data(float((self.time - self.t0).days), self.time)
+
+        def _finalize(self):
+            pass
+
+    class Relay(fm.Component):
+        """pull-based component after the documented pattern; logs (requested time, what the producer has published)"""
+
+        def __init__(self, producer, log):
+            super().__init__()
+            self._name, self.producer, self.log, self.ready = "R", producer, log, False
+
+        def _initialize(self):
+            self.inputs.add(name="In", time=None, grid=fm.NoGrid(), units=None)
+            self.outputs.add(fm.CallbackOutput(callback=self._get, name="Out"))
+            self.create_connector(pull_data=["In"], out_info_rules={"Out": [fm.tools.FromInput("In")]})
+
+        def _connect(self, start_time):
+            self.try_connect(start_time)
+            if self.connector.all_data_pulled:
+                self.ready = True
+
+        def _get(self, _caller, time):
+            if not self.ready:
+                return None
+            self.log.append(["call", time, self.producer.outputs["o"].time])
+            v = self.inputs["In"].pull_data(time)
+            self.log[-1].append(float(np.asarray(v.magnitude).ravel()[0]))
+            return v.copy()
+
+        def _validate(self):
+            pass
+
+        def _update(self):
+            pass
+
+        def _finalize(self):
+            pass
+
+    _TT = (Daily, Relay)
+    return _TT
+
+
+def check_time_trigger(case, ctx):
+    """daily producer -> pull-based relay -> fm.components.TimeTrigger(step = timedelta or calendar step) -> sink.
+    The provider must be invoked for a time the producer has reached (C01 extends through the pull-based component),
+    its own pull must deliver the producer's publication for exactly that time, and the run must complete."""
+    from datetime import datetime
+
+    import finam as fm
+    from dateutil.relativedelta import relativedelta
+
+    Daily, Relay = _tt_classes()
+    start = datetime(*case["start"])
+    step = relativedelta(**case["step"]) if case["calendar"] else timedelta(**case["step"])
+    log = []
+    prod = Daily(start, case["pstep"])
+    relay = Relay(prod, log)
+    trig = fm.components.TimeTrigger(in_info=fm.Info(time=None, grid=None, units=None), start=start, step=step)
+    sink = fm.components.DebugConsumer({"In": fm.Info(time=None, grid=fm.NoGrid(), units=None)}, start=start, step=timedelta(days=case["sstep"]))
+    comps = [prod, relay, trig, sink]
+    comp = fm.Composition([comps[i] for i in case["order"]], print_log=False)
+    prod.outputs["o"] >> relay.inputs["In"]
+    relay.outputs["Out"] >> trig.inputs["In"]
+    trig.outputs["Out"] >> sink.inputs["In"]
+    info = f" | start {start.date()} step {case['step']} producer step {case['pstep']} d order {case['order']}"
+    ctx.event("calendar-step" if case["calendar"] else "timedelta-step")
+    ctx.nontrivial(case["calendar"] or case["pstep"] > 1)
+    try:
+        comp.run(end_time=start + timedelta(days=case["days"]))
+    except (fm.FinamTimeError, fm.FinamNoDataError) as e:
+        last = log[-1] if log else None
+        ctx.violation("time-trigger-run-fails", f"{type(e).__name__}: {str(e)[:140]}; last provider call {last}" + info)
+        return
+    calls = [c for c in log if c[1] is not None]
+    for c in calls:
+        _tag, t, have = c[0], c[1], c[2]
+        if have is None or t > have:
+            ctx.violation("provider-called-before-upstream-ready", f"provider invoked for {t} while the producer has published up to {have}" + info)
+            return
+        if len(c) > 3 and case["pstep"] == 1 and c[3] != float((t - start).days):
+            ctx.violation("provider-pull-other-time", f"provider's pull for {t} delivered the producer's day {c[3]}" + info)
+            return
+    if len(calls) < 3:
+        ctx.violation("time-trigger-not-served", f"only {len(calls)} provider calls in {case['days']} days" + info)
+
+
+@st.composite
+def time_trigger_case(draw):
+    y = draw(st.sampled_from([2000, 2001, 2003]))
+    m = draw(st.integers(1, 12))
+    dmax = [31, 29 if y == 2000 else 28, 31, 30, 31, 30, 31, 31, 30, 31, 30, 31][m - 1]
+    d = draw(st.one_of(st.integers(1, dmax), st.integers(max(1, dmax - 3), dmax)))
+    calendar = draw(st.booleans())
+    if calendar:
+        step = draw(st.sampled_from([{"months": 1}, {"months": 1}, {"months": 2}, {"months": 1, "days": 1}, {"weeks": 3}]))
+        days = 250
+    else:
+        step = {"days": draw(st.integers(1, 9))}
+        days = draw(st.integers(20, 60))
+    return {"start": [y, m, d], "calendar": calendar, "step": step, "pstep": draw(st.sampled_from([1, 1, 2, 3])), "sstep": draw(st.integers(1, 40)),
+            "days": days, "order": list(draw(st.permutations([0, 1, 2, 3])))}
+
+
 def parts():
     return [
         Part("static", check_static, strategy=static_case(), budget={"quick": 1500, "thorough": 30000}),
         Part("pullbased", check_pullbased, strategy=pullbased_spec(), budget={"quick": 700, "thorough": 40000}, fuzz={"thorough": 5000}),
         Part("fanout_enum", check_fanout, enumerate=enum_fanout, exhaustive=True),
+        Part("time_trigger", check_time_trigger, strategy=time_trigger_case(), budget={"quick": 200, "thorough": 6000}, shrink_budget=100),
         Part("merger", check_merger, strategy=merger_spec(), budget={"quick": 500, "thorough": 20000}),
     ]
